@@ -68,6 +68,22 @@ class Report:
     def job_problem(self, job):
         """Crashed / timed-out child: inconclusive (a wall-clock cap is never a verdict)."""
         tail = (job.stderr or "").strip().splitlines()[-6:]
+        # an exception that escapes from the code under test on an in-contract workload is not a harness problem: the
+        # operation raised instead of delivering what the property promises (innermost traceback frame inside the tree)
+        import re
+
+        from framework import common
+
+        frames = re.findall(r'^  File "([^"]+)", line (\d+), in (\S+)', job.stderr or "", flags=re.M)
+        last = tail[-1] if tail else ""
+        if job.status == "crash" and frames and frames[-1][0].startswith(os.path.join(common.TREE, "nucs") + os.sep) \
+                and re.match(r"^[A-Za-z_.]*(Error|Exception)\b", last):
+            f, ln, fn = frames[-1]
+            self.violation({"prop": self.prop, "kind": "exception_in_code_under_test:" + last.split(":")[0],
+                            "detail": "%s raised at %s:%s (%s) on an in-contract input of job %s" % (
+                                last[:200], os.path.relpath(f, common.TREE), ln, fn, job.tag or job.func),
+                            "input": getattr(job, "stalled_case", None), "mode": job.mode})
+            return
         self.inconclusive.append("job %s %s/%s %s after %.0fs: %s" % (
             job.tag or "", job.module, job.func, job.status, job.wall, " | ".join(tail)[-600:]))
 
